@@ -77,7 +77,8 @@ def items(tier, seed):
             continue
         geoms = GEOMS[ent.kind] + (GEOMS_THOROUGH.get(ent.kind, []) if tier == 'thorough' else [])
         for g in geoms:
-            for variant in ('plain', 'mirrored') + (('lorder', 'vswap', 'scaled') if tier == 'thorough' else ()):
+            for variant in ('plain', 'mirrored') + (('unsorted',) if ent.kind == 'tri' else ()) + (
+                    ('lorder', 'vswap', 'scaled') if tier == 'thorough' else ()):
                 its.append((ent.name, g, variant))
         its.append((ent.name, None, 'reference'))
     return its
@@ -113,6 +114,14 @@ def build_mesh(ent, geom, variant, seed):
             m = list(ms.raw_transitions(st0))[0][1].build()
         elif variant == 'scaled':
             m = m.scaled(tuple([4., .25, -2.][:m.p.shape[0]]))
+        elif variant == 'unsorted':
+            # triangles handed over with sort_t=False: every column rotated differently, odd columns reversed, so local
+            # edges run with and against the global direction
+            t = st0.t.copy()
+            for c in range(t.shape[1]):
+                col = np.roll(t[:, c], c % 3 + 1)
+                t[:, c] = col[::-1] if c % 2 else col
+            m = M.MeshTri1(st0.p.copy(), t, sort_t=False)
     if variant == 'mirrored':
         dim = m.p.shape[0]
         m = m.mirrored(tuple([1.] + [0.] * (dim - 1)))
